@@ -88,7 +88,7 @@ def ref(oid):
 
 def lit_kind_for(rng, bits, allow_obj=True):
     n = len(bits)
-    kinds = ['bin', 'bools', 'tuple', 'bitarray', 'bitarray_le']
+    kinds = ['bin', 'bools', 'tuple', 'bitarray', 'bitarray_le', 'gen_truthy']
     if n % 4 == 0 and n:
         kinds += ['hex', 'hex']
     if n % 3 == 0 and n:
@@ -108,7 +108,7 @@ def rand_operand(rng, n=None, allow_obj=True):
 
 
 MEM_ROUTES = ['bin', 'auto_bin', 'auto_hex', 'bools', 'bitarray', 'bitarray_kw', 'bytes_len', 'bytes_off',
-              'slice', 'obj', 'uint', 'fromstring', 'auto_oct', 'bitarray_le', 'bitarray_le_kw']
+              'slice', 'obj', 'uint', 'fromstring', 'auto_oct', 'bitarray_le', 'bitarray_le_kw', 'gen_truthy', 'map_truthy']
 
 
 def mk(rid, cls, bits, route='bin', pos=NONE_I):
